@@ -288,7 +288,7 @@ class _:
     hooks = {'model:connection.FragmentSender.callback': callback_recorder}
     cvc5_first = ['split-loop:preserved/pieces-plus-rest-are-the-payload']       # z3's sequence solver needs > 60 s, cvc5 seconds
     def setup(E):
-        set_limits(E)
+        set_limits(E, E.int('MTU', lo=96, hi=1500))      # every MTU setMTU may be given that leaves room for a fragment (small ones keep counter-examples short)
         self = E.obj(FS, tag='self', conn=None, frag_id=E.int('frag_id', cls=SEQ, lo=1, hi=S.M), retry=E.enum(RETRY, 'retry'),
                      user_callback=None, fragments=E.list([]), payloads=E.list([]), acks=E.list([]), unresolved=0)
         return dict(self=self, payload=E.bytes('p'))
@@ -300,8 +300,9 @@ class _:
     loops = {
         0: LoopSpec(
             invariant={
-                'pieces-plus-rest-are-the-payload': lambda self, payload, old: S.eq(S.concat(S.meas(self.fragments, 'concat'), payload), old.payload),
+                # (the cheap integer clause first: a clause the solver leaves undecided is assumed for the clauses after it)
                 'lengths-add-up': lambda self, payload, old: S.meas(self.fragments, 'bytelen') + S.len(payload) == S.len(old.payload),
+                'pieces-plus-rest-are-the-payload': lambda self, payload, old: S.eq(S.concat(S.meas(self.fragments, 'concat'), payload), old.payload),
                 'every-piece-is-non-empty-and-fits-a-datagram': lambda self, j, E: S.implies(
                     (0 <= j) & S.bool(S.term(j) < lst_n(self.fragments)),
                     (S.len(frag_at(self.fragments, j)) >= 1) & (S.len(frag_at(self.fragments, j)) + 6 <= cattr(E, 'MAX_PAYLOAD_SIZE')))
